@@ -13,7 +13,6 @@ import (
 	"os"
 	"strings"
 	"sync/atomic"
-	"syscall"
 	"time"
 
 	"verifharness/internal/core"
@@ -71,29 +70,6 @@ func c07Source(data []byte, cs c07Case) *src.Source {
 		s.Sizes(n)
 	}
 	return s
-}
-
-var errWrappedEOF = fmt.Errorf("reading body: %w", io.EOF)
-var errWrappedUnexpected = fmt.Errorf("reading body: %w", io.ErrUnexpectedEOF)
-
-func c07Err(kind string) error {
-	switch kind {
-	case "io.ErrUnexpectedEOF":
-		return io.ErrUnexpectedEOF
-	case "wrapped io.ErrUnexpectedEOF":
-		return errWrappedUnexpected
-	case "wrapped io.EOF":
-		return errWrappedEOF
-	case "io.ErrClosedPipe":
-		return io.ErrClosedPipe
-	case "EINTR": // an errno a retry wrapper might want to "handle"; here it is the source's final, sticky error
-		return syscall.EINTR
-	case "EAGAIN":
-		return syscall.EAGAIN
-	case "os.ErrDeadlineExceeded":
-		return os.ErrDeadlineExceeded
-	}
-	return src.ErrInjected
 }
 
 // lenSource delivers head, then rest; Len() reports what is left of head only.
